@@ -400,7 +400,9 @@ def run_program(ctx, rnd, mode, typed, info, program=None):
     plist = passes()
     from ..refeval import OPS
 
-    glob = {k: v for k, v in vars(m).items() if k not in OPS and not k.startswith("__")}
+    # only FUNCTIONS of the module may stay in a query by name (a helper that cannot be inlined is left as a call); plain values
+    # (CUT, SHIFT, constants a helper's body uses) must have been frozen into the query as literals
+    glob = {k: v for k, v in vars(m).items() if k not in OPS and not k.startswith("__") and callable(v)}
     for leaf, term in leaves:
         s = streams[leaf]
         tname = None
